@@ -14,6 +14,12 @@ def projects(tier, seed):
     ps = [fault.small_project(rnd, nfiles=3, stmts=(1, 3), label="t0"),
           fault.small_project(rnd, nfiles=4, stmts=(1, 2), structured=True, lock=core.lock_text(200), label="t1"),
           fault.small_project(rnd, nfiles=1, stmts=(2, 3), use_cache=False, label="t2")]
+    # a tree in which every statement already carries a reference: --check would pass if it were not interrupted
+    full = {"src/a.rs": b'fn a() {\n    info!("[ref: 1] one");\n    warn!(k = 1; "[ref: 2] two");\n}\n',
+            "src/b.rs": b'fn b() {\n    error!("[ref: 3] three");\n}\n',
+            "src/sub/c.rs": b'fn c() {\n    log::info!("[ref: 4] four");\n}\n'}
+    ps.append(fault.Project(full, label="t_complete"))
+    ps.append(fault.Project(dict(full), lock=core.lock_text(5), label="t_complete_lock"))
     if tier == "thorough":
         ps.append(fault.small_project(rnd, nfiles=6, stmts=(1, 4), label="t3"))
         ps.append(fault.small_project(rnd, nfiles=2, stmts=(1, 2), big=50000, label="t4big"))
@@ -64,7 +70,10 @@ def judge(proj, rec, box, cfg, built, expected, k, mode, sync=True):
     if other:
         v.append(("other-project-file-changed", {"files": other}))
     if mode == "check":
-        if rec.rc == 0:
+        if rec.rc == 0 and (sync and not before_handlers):
+            # "an interrupted --check never passes", whether or not the tree has statements without reference
+            v.append(("interrupted-check-exited-0", {"tree_complete": not any(s != "original" for s in states.values()) and proj.label.startswith("t_complete")}))
+        elif rec.rc == 0 and not sync and not proj.label.startswith("t_complete"):
             v.append(("interrupted-check-exited-0", {"note": "the tree has statements without reference"}))
         if any(s != "original" for s in states.values()):
             v.append(("check-mode-modified-files", {}))
